@@ -496,6 +496,14 @@ func init() {
 				c.P["ffsingle"] = int64(j % 2)
 				cs = append(cs, c)
 			}
+			// one DAG, every block as anchor (c13anchors.go)
+			anch := 16
+			if tier == "thorough" {
+				anch = 200
+			}
+			for j := 0; j < anch; j++ {
+				cs = append(cs, CaseSpec{Kind: "anchors", P: map[string]int64{"n": int64(4 + j%3), "events": int64(260 + (j*23)%200)}})
+			}
 			// the recorded history of the known finding (a reset node gives a late event
 			// a lower round), kept in every tier and at every seed: thorough seed 1 case 51
 			cs = append(cs, CaseSpec{Kind: "history",
@@ -504,6 +512,9 @@ func init() {
 			return cs
 		},
 		Run: func(cs CaseSpec) *CaseResult {
+			if cs.Kind == "anchors" {
+				return runC13Anchors(cs)
+			}
 			res := runHistory(cs, func(nw *Network) []Monitor {
 				a := NewMonAgreement()
 				a.IncludeReset, a.Prop = true, "C13"
